@@ -186,7 +186,7 @@ def run(ctx):
     thorough = ctx.tier == "thorough"
     ctx.mc("MC_Autoparse", "MC_Autoparse.cfg", workers=4)
     rng = random.Random(ctx.seed * 236887691 + 14)
-    cases = [gen_case(rng, k + 1) for k in range(20000 if thorough else 1500)]
+    cases = [gen_case(rng, k + 1) for k in range(20000 if thorough else 2500)]
     out = ctx.pmap(execute, cases, chunksize=16)
     recs = [r for rs in out for r in rs]
     parse = [r for r in recs if r["ev"] == "Autoparse"]
